@@ -400,8 +400,8 @@ v("c16-on-clause-crossed", "C16", SM,
   "                    left_qqn\n                    + \".\"\n                    + self.quote_identifier(c_b)\n                    + \" = \"\n                    + right_qqn\n                    + \".\"\n                    + self.quote_identifier(c_a)")
 v("c16-pandas-full-maps-left", "C16", PB, "            \"full\": \"outer\",", "            \"full\": \"left\",")
 v("c16-pandas-fill-right-from-left", "C16", PB,
-  "                is_null = res[c].isnull()\n                if is_null.any():\n                    res.loc[is_null, c] = res.loc[is_null, c + \"_tmp_right_col\"]",
-  "                is_null = res[c + \"_tmp_right_col\"].isnull()\n                if (~is_null).any():\n                    res.loc[~is_null, c] = res.loc[~is_null, c + \"_tmp_right_col\"]")
+  "                elif is_null.any():\n                    res.loc[is_null, c] = res.loc[is_null, c + \"_tmp_right_col\"]",
+  "                elif (~is_null).any():\n                    res.loc[~is_null, c] = res.loc[~is_null, c + \"_tmp_right_col\"]")
 v("c16-pandas-twin-cleanup-on_a-only", "C16", PB,
   "        merged_key_cols = {c_a for c_a, c_b in zip(op.on_a, op.on_b) if c_a == c_b}", "        merged_key_cols = set(op.on_a)")
 v("c16-polars-prefers-right", "C16", "polars_model.py",
@@ -673,14 +673,14 @@ v("c15-twin-unrelated-constant-key", "C15", PB,
 
 # ---------------------------------------------------------------- C08 (twin removal on every iteration)
 v("c08-twin-kept-when-left-has-no-nulls", "C08", PB,
-  "                is_null = res[c].isnull()\n                if is_null.any():\n                    res.loc[is_null, c] = res.loc[is_null, c + \"_tmp_right_col\"]\n                res = res.drop(c + \"_tmp_right_col\", axis=1, inplace=False)\n",
-  "                is_null = res[c].isnull()\n                if is_null.any():\n                    res.loc[is_null, c] = res.loc[is_null, c + \"_tmp_right_col\"]\n                    res = res.drop(c + \"_tmp_right_col\", axis=1, inplace=False)\n")
+  "                elif is_null.any():\n                    res.loc[is_null, c] = res.loc[is_null, c + \"_tmp_right_col\"]\n                res = res.drop(c + \"_tmp_right_col\", axis=1, inplace=False)\n",
+  "                elif is_null.any():\n                    res.loc[is_null, c] = res.loc[is_null, c + \"_tmp_right_col\"]\n                    res = res.drop(c + \"_tmp_right_col\", axis=1, inplace=False)\n")
 v("c08-twin-twin-drop-hoisted-local", "C08", PB,
-  "                is_null = res[c].isnull()\n                if is_null.any():\n                    res.loc[is_null, c] = res.loc[is_null, c + \"_tmp_right_col\"]\n                res = res.drop(c + \"_tmp_right_col\", axis=1, inplace=False)\n",
-  "                right_c = c + \"_tmp_right_col\"\n                is_null = res[c].isnull()\n                if is_null.any():\n                    res.loc[is_null, c] = res.loc[is_null, right_c]\n                res = res.drop(right_c, axis=1, inplace=False)\n", expect="silent")
+  "                is_null = res[c].isnull()\n                if is_null.all():\n                    # nothing on the left (its column may have no type of its own): the right column as it is\n                    res[c] = res[c + \"_tmp_right_col\"]\n                elif is_null.any():\n                    res.loc[is_null, c] = res.loc[is_null, c + \"_tmp_right_col\"]\n                res = res.drop(c + \"_tmp_right_col\", axis=1, inplace=False)\n",
+  "                right_c = c + \"_tmp_right_col\"\n                is_null = res[c].isnull()\n                if is_null.all():\n                    res[c] = res[right_c]\n                elif is_null.any():\n                    res.loc[is_null, c] = res.loc[is_null, right_c]\n                res = res.drop(right_c, axis=1, inplace=False)\n", expect="silent")
 v("c08-twin-loop-continue-form", "C08", PB,
-  "            if c not in merged_key_cols:\n                is_null = res[c].isnull()\n                if is_null.any():\n                    res.loc[is_null, c] = res.loc[is_null, c + \"_tmp_right_col\"]\n                res = res.drop(c + \"_tmp_right_col\", axis=1, inplace=False)\n",
-  "            if c in merged_key_cols:\n                continue\n            is_null = res[c].isnull()\n            if is_null.any():\n                res.loc[is_null, c] = res.loc[is_null, c + \"_tmp_right_col\"]\n            res = res.drop(c + \"_tmp_right_col\", axis=1, inplace=False)\n", expect="silent")
+  "            if c not in merged_key_cols:\n                is_null = res[c].isnull()\n                if is_null.all():\n                    # nothing on the left (its column may have no type of its own): the right column as it is\n                    res[c] = res[c + \"_tmp_right_col\"]\n                elif is_null.any():\n                    res.loc[is_null, c] = res.loc[is_null, c + \"_tmp_right_col\"]\n                res = res.drop(c + \"_tmp_right_col\", axis=1, inplace=False)\n",
+  "            if c in merged_key_cols:\n                continue\n            is_null = res[c].isnull()\n            if is_null.all():\n                res[c] = res[c + \"_tmp_right_col\"]\n            elif is_null.any():\n                res.loc[is_null, c] = res.loc[is_null, c + \"_tmp_right_col\"]\n            res = res.drop(c + \"_tmp_right_col\", axis=1, inplace=False)\n", expect="silent")
 
 # ---------------------------------------------------------------- C03
 PM = "polars_model.py"
@@ -783,8 +783,8 @@ v("c15-db-auto-key-without-table-probe", "C15", "db_space.py",
   "            while (key in self.description_map.keys()) or self.db_handle.db_model.table_exists(\n                self.db_handle.conn, key\n            ):\n                self.n_tmp = self.n_tmp + 1\n                key = f\"da_temp_{self.n_tmp}\"\n        assert isinstance(key, str)\n        assert isinstance(allow_overwrite, bool)\n        if not allow_overwrite:",
   "            while key in self.description_map.keys():\n                self.n_tmp = self.n_tmp + 1\n                key = f\"da_temp_{self.n_tmp}\"\n        assert isinstance(key, str)\n        assert isinstance(allow_overwrite, bool)\n        if not allow_overwrite:")
 v("c16-pandas-fill-not-for-inner", "C16", PB,
-  "        for c in common_cols:\n            if c not in merged_key_cols:\n                is_null = res[c].isnull()\n                if is_null.any():",
-  "        for c in common_cols:\n            if c not in merged_key_cols:\n                is_null = res[c].isnull()\n                if is_null.any() and (op.jointype != \"INNER\"):")
+  "                elif is_null.any():\n                    res.loc[is_null, c] = res.loc[is_null, c + \"_tmp_right_col\"]",
+  "                elif is_null.any() and (op.jointype != \"INNER\"):\n                    res.loc[is_null, c] = res.loc[is_null, c + \"_tmp_right_col\"]")
 v("c27-mean-allowed-in-ordered-window", "C27", "expr_rep.py", "    \"count\",\n    \"max\",\n    \"mean\",\n    \"median\",\n    \"min\",\n    \"nunique\",\n    \"prod\",", "    \"count\",\n    \"max\",\n    \"median\",\n    \"min\",\n    \"nunique\",\n    \"prod\",")
 v("c12-sqlnode-not-in-eval-env", "C12", "expr_parse_fn.py", "    TableDescription,\n    SQLNode,\n)", "    TableDescription,\n)")
 v("c18-count-numbered-in-row-order", "C18", PB,
@@ -1063,7 +1063,7 @@ v("d104-join-refuses-empty-request", "C01", SM, "            # only the rows are
 v("d105-sql-blocks-to-rows-row-major", "C08", SM,
   "        for vc in control_value_cols:  # column by column: the order of record_spec.row_columns\n            for i in range(ct.shape[0]):",
   "        for i in range(ct.shape[0]):\n            for vc in control_value_cols:")
-v("d105-pandas-rows-by-observed-levels", "C08", PB, "        res = res.reindex(columns=blocks_in.row_columns)\n", "")
+v("d105-pandas-rows-by-observed-levels", "C08", PB, "        res = res.loc[:, ~res.columns.duplicated()].reindex(columns=blocks_in.row_columns)\n", "")
 v("d105-polars-rows-by-observed-levels", "C17", PM, "        res = res.select(\n            [\n                pl.col(c) if c in res.columns else pl.lit(None).alias(c)\n                for c in blocks_in.row_columns\n            ]\n        )\n", "")
 v("d105-polars-blocks-keys-first", "C03", PM, "        res = res.select(blocks_out.block_columns)  # the declared column order\n", "")
 v("d105-pandas-blocks-keys-first", "C17", PB, "        res = res.loc[:, blocks_out.block_columns]  # the declared column order\n", "")
@@ -1074,12 +1074,12 @@ v("d106-polars-record-sort-nulls-first-c03", "C03", PM, "            res = res.s
 CD = "cdata.py"
 v("d107-keyed-column-names-ignored", "C17", CD, "            blocks_out=self.value_column_form(\n                key_column_name=key_column_name, value_column_name=value_column_name\n            ),", "            blocks_out=self.value_column_form(),")
 
-v("d108-keyless-group-by-unguarded", "C17", SM, "        if len(control_cols) > 0:  # no record keys: the whole table is one record\n", "        if True:\n")
+v("d108-keyless-group-by-unguarded", "C17", SM, "            sql_suffix = sql_suffix + [\"HAVING COUNT(1) > 0\"]\n        if len(control_cols) > 0:\n", "            sql_suffix = sql_suffix + [\"HAVING COUNT(1) > 0\"]\n        if True:\n")
 
-v("d109-relaxed-stacking-unguarded", "C17", PM, "            if (len(stacked_types) > 1) and (\n                not all([t.is_numeric() for t in stacked_types])\n            ):", "            if False:")
+v("d109-relaxed-stacking-unguarded", "C17", PM, "            if len(set([stacking_family(t) for t in stacked_types])) > 1:", "            if False:")
 
-v("d110-coalesce-array-operand", "C05", PB, "        if isinstance(b, numpy.ndarray):\n            b = self.pd.Series(b)\n", "")
-v("d110-coalesce-array-operand-c01", "C01", PB, "        if isinstance(a, numpy.ndarray):\n            a = self.pd.Series(a)\n", "")
+v("d110-coalesce-array-operand", "C05", PB, "        if isinstance(b, (numpy.ndarray, list, tuple)):\n            b = self.pd.Series(b)\n", "")
+v("d110-coalesce-array-operand-c01", "C01", PB, "        if isinstance(a, (numpy.ndarray, list, tuple)):\n            a = self.pd.Series(a)\n", "")
 
 v("d111-fmax-bare-ufunc", "C05", PB, "            \"fmax\": lambda a, b: self._ignoring_missing(numpy.fmax, a, b),\n", "")
 v("d111-fmin-not-refilled", "C05", PB, "            res = res.fillna(self._coalesce(a, b))\n", "            pass\n")
@@ -1097,4 +1097,17 @@ v("d114-polars-b2r-empty-untyped", "C17", PM, "            return data.select(\n
   "            return pl.DataFrame({c: [] for c in blocks_in.row_columns})")
 v("d114-project-group-col-untyped", "C03", PB, "                res[g] = self.pd.Series([], dtype=group_col_types[g])", "                res[g] = []")
 
-v("d116-spark-coalesce-isnan-any-type", "C16", SP, "            f\" (CASE WHEN typeof({x}) IN ('double', 'float') THEN NOT isNaN({x}) ELSE TRUE END)\"", "            f\" (NOT isNaN({x}))\"")
+v("d116-spark-coalesce-isnan-any-type", "C16", SP, "            f\" (CASE WHEN typeof({x}) IN ('double', 'float')\"\n            f\" THEN NOT isNaN(CAST(CAST({x} AS STRING) AS DOUBLE)) ELSE TRUE END)\"", "            f\" (NOT isNaN({x}))\"")
+
+NS = "near_sql.py"
+v("m8-cte-key-sorted-columns", "C04", NS, "                    ops_key = f\"{ops_key}_{list(self.columns)}\"", "                    ops_key = f\"{ops_key}_{sorted(self.columns)}\"")
+v("m8-merged-key-names-only", "C04", SM, "                    subsql.ops_key = f\"{subsql.ops_key}.merged({annotation}, {list(subsql.terms.keys())})\"", "                    subsql.ops_key = f\"{subsql.ops_key}.merged({list(subsql.terms.keys())})\"")
+v("m8-polars-join-coalesce-true", "C16", PM, "                how=how,\n                suffix=\"_da_right_tmp\",\n            )", "                how=how,\n                suffix=\"_da_right_tmp\",\n                coalesce=True,\n            )")
+v("m8-join-keys-rebuilt-as-dict", "C07", VR, "            on=[(va, vb) for (va, vb) in zip(self.on_a, self.on_b)],\n            jointype=self.jointype,", "            on=dict(zip(self.on_a, self.on_b)),\n            jointype=self.jointype,")
+v("m8-twin-join-keys-as-list-zip", "C07", VR, "            on=[(va, vb) for (va, vb) in zip(self.on_a, self.on_b)],\n            jointype=self.jointype,", "            on=list(zip(self.on_a, self.on_b)),\n            jointype=self.jointype,", expect="silent")
+
+v("d117-coalesce-list-operand", "C05", PB, "        if isinstance(b, (numpy.ndarray, list, tuple)):", "        if isinstance(b, numpy.ndarray):")
+v("d119-reindex-on-duplicate-labels", "C08", PB, "        res = res.loc[:, ~res.columns.duplicated()].reindex(columns=blocks_in.row_columns)", "        res = res.reindex(columns=blocks_in.row_columns)")
+v("d118-join-cellwise-fill-of-untyped-column", "C16", PB, "                if is_null.all():\n                    # nothing on the left (its column may have no type of its own): the right column as it is\n                    res[c] = res[c + \"_tmp_right_col\"]\n                elif is_null.any():", "                if is_null.any():")
+v("d121-keyless-aggregate-over-no-rows", "C17", SM, "            sql_suffix = sql_suffix + [\"HAVING COUNT(1) > 0\"]\n", "            pass\n")
+v("d122-spark-coalesce-nested-case", "C16", SP, "                for arg in expression.args\n                for ai in coalesce_args(arg)\n", "                for ai in expression.args\n")
